@@ -1,6 +1,9 @@
 package syzgydb
 
-import "math/rand"
+import (
+	"math/rand"
+	"sync"
+)
 
 // Config holds the configuration settings for the service.
 type Config struct {
@@ -39,7 +42,11 @@ func Configure(cfg Config) {
 	}
 }
 
+// A seeded source is shared by the goroutines that insert into the index
+// trees concurrently; rand.Rand is not safe for concurrent use, so it is
+// guarded by mu (the global source used when rand is nil locks internally).
 type myRandomType struct {
+	mu   sync.Mutex
 	rand *rand.Rand
 }
 
@@ -47,6 +54,8 @@ func (r *myRandomType) Intn(n int) int {
 	if r.rand == nil {
 		return rand.Intn(n)
 	}
+	r.mu.Lock()
+	defer r.mu.Unlock()
 	return r.rand.Intn(n)
 }
 
@@ -54,6 +63,8 @@ func (r *myRandomType) NormFloat64() float64 {
 	if r.rand == nil {
 		return rand.NormFloat64()
 	}
+	r.mu.Lock()
+	defer r.mu.Unlock()
 	return r.rand.NormFloat64()
 }
 
@@ -61,6 +72,8 @@ func (r *myRandomType) Float64() float64 {
 	if r.rand == nil {
 		return rand.Float64()
 	}
+	r.mu.Lock()
+	defer r.mu.Unlock()
 	return r.rand.Float64()
 }
 
@@ -72,7 +85,7 @@ func (r *myRandomType) ThreadsafeNew() *myRandomType {
 	if r.rand == nil {
 		return r
 	}
-	return &myRandomType{rand.New(rand.NewSource(r.rand.Int63()))}
+	return &myRandomType{rand: rand.New(rand.NewSource(r.rand.Int63()))}
 }
 
 var myRandom *myRandomType
